@@ -130,6 +130,25 @@ t_bidib_booster_power_state_simple bidib_booster_normal_to_simple(t_bidib_booste
 
 enum { R_CONSUMED, R_MSGQ, R_ERRQ, R_INTERN };
 
+/* number of data bytes in the fixed part of the uplink message layouts the library interprets (BiDiB specification:
+ * NODE_NEW/LOST version + local address + 7 uid bytes; CS_DRIVE_MANUAL address(2) format active speed f1..f4; ACCESSORY
+ * STATE/NOTIFY anum aspect total execute wait; BM_DYN_STATE mnum address(2) dyn_num value; BM_POSITION address(2) type
+ * location(2); BM_SPEED address(2) speed(2); the 3-byte acknowledgements / port states / confidence; mnum+value pairs;
+ * single-byte states) */
+static int ref_fixed_layout_bytes(uint8_t type) {
+	switch (type) {
+	case MSG_NODE_LOST: case MSG_NODE_NEW: case MSG_CS_DRIVE_MANUAL: return 9;
+	case MSG_ACCESSORY_STATE: case MSG_ACCESSORY_NOTIFY: case MSG_BM_DYN_STATE: case MSG_BM_POSITION: return 5;
+	case MSG_BM_SPEED: return 4;
+	case MSG_CS_DRIVE_ACK: case MSG_CS_ACCESSORY_ACK: case MSG_CS_ACCESSORY_MANUAL: case MSG_LC_STAT: case MSG_LC_WAIT:
+	case MSG_BM_CONFIDENCE: return 3;
+	case MSG_BM_MULTIPLE: case MSG_BM_CURRENT: case MSG_BOOST_DIAGNOSTIC: case MSG_VENDOR: return 2;
+	case MSG_PKT_CAPACITY: case MSG_STALL: case MSG_CS_STATE: case MSG_BM_OCC: case MSG_BM_FREE: case MSG_BM_ADDRESS:
+	case MSG_BOOST_STAT: case MSG_CS_DRIVE_EVENT: case MSG_SYS_ERROR: return 1;
+	default: return 0;
+	}
+}
+
 void harness(void) {
 	bool debug = ND_bool("debug_mode");
 	bidib_lowlevel_debug_mode = debug;
@@ -214,6 +233,8 @@ void harness(void) {
 		                                      type == MSG_CS_DRIVE_EVENT || type == MSG_BOOST_STAT, "README error-queue table");
 		if (readme_message_queue(type)) VASSERT(want == R_MSGQ, "README message-queue table: listed types reach the user message queue");
 	}
+	/* a message shorter than the fixed part of its BiDiB layout is malformed (C12): discarded - no state change, no queue */
+	if ((!debug || type == MSG_STALL) && DLEN < ref_fixed_layout_bytes(type)) { want = R_CONSUMED; want_stub = S_NONE; }
 	guint lm = g_queue_get_length(uplink_queue), le = g_queue_get_length(uplink_error_queue), li = g_queue_get_length(uplink_intern_queue);
 	VASSERT(lm == (want == R_MSGQ ? 1u : 0u), "message queue gets the message iff it is its destination");
 	VASSERT(le == (want == R_ERRQ ? 1u : 0u), "error queue gets the message iff it is its destination");
